@@ -1,6 +1,7 @@
 package main
 
 import (
+	"fmt"
 	"io"
 	"os"
 	"strings"
@@ -27,12 +28,57 @@ func init() { runtime.LockOSThread() }
 func perform(kind, dst string, mode uint32, pieces []int, cbFail int, cbMode string, after func(i int)) error {
 	stopPanic := strings.HasSuffix(cbMode, "!")
 	cbMode = strings.TrimSuffix(cbMode, "!")
+	// the callback's own way out comes in several kinds (chosen by the position, so that every run is reproducible):
+	// returned errors — the sentinel, a fresh error, a typed-nil pointer in a non-nil interface; panics — with an error,
+	// a string, a runtime error, nil, a typed-nil pointer
 	stop := func() error {
 		if stopPanic {
+			switch cbFail % 5 {
+			case 1:
+				panic("callback panic")
+			case 2:
+				var m map[int]int
+				m[cbFail] = 1 // runtime error: assignment to entry in nil map
+			case 3:
+				panic(nil)
+			case 4:
+				panic((*cbErrT)(nil))
+			}
 			panic(errCB)
 		}
-		return errCB
+		switch cbFail % 3 {
+		case 1:
+			lastCbErr = fmt.Errorf("fresh callback error %d", cbFail)
+		case 2:
+			lastCbErr = (*cbErrT)(nil)
+		default:
+			lastCbErr = errCB
+		}
+		return lastCbErr
 	}
+	// half of the runs hand every piece over in one reused buffer that is overwritten between the calls
+	var shared []byte
+	if len(pieces)%3 == 0 {
+		m := 0
+		for _, n := range pieces {
+			if n > m {
+				m = n
+			}
+		}
+		shared = make([]byte, m)
+	}
+	bytesOf := func(off, n int) []byte {
+		if shared == nil {
+			return genBytes(off, n, seedNew)
+		}
+		b := shared[:n]
+		for i := range b {
+			b[i] = byte(((off+i)*31 + seedNew) % 251)
+		}
+		return b
+	}
+	// the thin wrappers WriteFile / Create fix the mode to 0644: a fraction of the 0644 runs goes through them
+	viaWrapper := mode == 0o644 && len(pieces)%2 == 0
 	switch kind {
 	case "baseline": // plain os calls, independent of the code under test: teaches the tracer names and offsets
 		f, err := os.OpenFile(dst+".b", os.O_RDWR|os.O_CREATE|os.O_EXCL, os.FileMode(mode))
@@ -50,13 +96,13 @@ func perform(kind, dst string, mode uint32, pieces []int, cbFail int, cbMode str
 		}
 		return os.Remove(dst)
 	case "wf":
-		return safe.WriteFileWithMode(dst, func(w io.Writer) error {
+		writer := func(w io.Writer) error {
 			off := 0
 			for i, n := range pieces {
 				if i == cbFail {
 					return stop()
 				}
-				if _, err := w.Write(genBytes(off, n, seedNew)); err != nil {
+				if _, err := w.Write(bytesOf(off, n)); err != nil {
 					switch cbMode {
 					case "s":
 						return nil
@@ -76,15 +122,25 @@ func perform(kind, dst string, mode uint32, pieces []int, cbFail int, cbMode str
 				return stop()
 			}
 			return nil
-		}, os.FileMode(mode))
+		}
+		if viaWrapper {
+			return safe.WriteFile(dst, writer)
+		}
+		return safe.WriteFileWithMode(dst, writer, os.FileMode(mode))
 	case "commit", "abort":
-		f, err := safe.CreateWithMode(dst, os.FileMode(mode))
+		var f *safe.File
+		var err error
+		if viaWrapper {
+			f, err = safe.Create(dst)
+		} else {
+			f, err = safe.CreateWithMode(dst, os.FileMode(mode))
+		}
 		if err != nil {
 			return err
 		}
 		off := 0
 		for i, n := range pieces {
-			if _, err = f.Write(genBytes(off, n, seedNew)); err != nil {
+			if _, err = f.Write(bytesOf(off, n)); err != nil {
 				_ = f.Close()
 				return err
 			}
